@@ -976,9 +976,133 @@ fn failed_creations(ctx: &Ctx) {
     ctx.extra("failed_creation_runs", json!(runs));
 }
 
+/// Builder sweep (std build): every combination of protection, mapping flags, size and backing
+/// the builder accepts or refuses. While the region exists exactly its range is mapped; after a
+/// refused build, and after the drop of a built region, nothing the library mapped remains.
+/// Auxiliary calls on the fresh mapping (mlock / madvise / mprotect, if the library makes any)
+/// are failed one at a time as well.
+#[cfg(not(feature = "xen"))]
+fn builder_sweep(ctx: &Ctx, thorough: bool) {
+    use crate::interpose::{fail_aux_in, net_mapped, record_maps, take_aux_calls};
+    use vm_memory::mmap::MmapRegionBuilder;
+    use vm_memory::FileOffset;
+    let prots = [libc::PROT_NONE, libc::PROT_READ, libc::PROT_READ | libc::PROT_WRITE, libc::PROT_WRITE, libc::PROT_READ | libc::PROT_EXEC];
+    let pa = libc::MAP_PRIVATE | libc::MAP_ANONYMOUS;
+    let sa = libc::MAP_SHARED | libc::MAP_ANONYMOUS;
+    let mut flagsets = vec![
+        pa,
+        pa | libc::MAP_NORESERVE,
+        pa | libc::MAP_LOCKED,
+        pa | libc::MAP_POPULATE,
+        pa | libc::MAP_LOCKED | libc::MAP_POPULATE,
+        sa,
+        sa | libc::MAP_LOCKED,
+        sa | libc::MAP_NORESERVE,
+        pa | libc::MAP_FIXED,
+        pa | libc::MAP_HUGETLB,
+        pa | libc::MAP_STACK,
+        pa | libc::MAP_GROWSDOWN,
+        libc::MAP_PRIVATE,
+        libc::MAP_SHARED,
+        libc::MAP_ANONYMOUS,
+        0,
+    ];
+    if thorough {
+        flagsets.extend([pa | libc::MAP_NONBLOCK | libc::MAP_POPULATE, sa | libc::MAP_POPULATE, pa | libc::MAP_32BIT, pa | libc::MAP_LOCKED | libc::MAP_NORESERVE, sa | libc::MAP_LOCKED | libc::MAP_POPULATE, pa | libc::MAP_FIXED_NOREPLACE, libc::MAP_SHARED_VALIDATE | libc::MAP_ANONYMOUS, libc::MAP_PRIVATE | libc::MAP_LOCKED, libc::MAP_SHARED | libc::MAP_LOCKED | libc::MAP_NORESERVE]);
+    }
+    let sizes: Vec<usize> = if thorough { vec![1, 4096, 0x1800, 0x25000, (2 << 20) + 0x800, (4 << 20) + 4096] } else { vec![4096, 0x1800, 0x25000, (2 << 20) + 0x800] };
+    let f = crate::layouts::tempfile().unwrap();
+    f.set_len(16 << 20).unwrap();
+    let mut runs = 0u64;
+    let mut built = 0u64;
+    let mut refused = 0u64;
+    let mut aux_runs = 0u64;
+    for &prot in &prots {
+        for &flags in &flagsets {
+            for &size in &sizes {
+                for backing in 0..3usize {
+                    // 0: none, 1: file at offset 0, 2: file at a page-aligned offset
+                    let make = || {
+                        let mut b = MmapRegionBuilder::<()>::new(size).with_mmap_prot(prot).with_mmap_flags(flags);
+                        if backing > 0 {
+                            b = b.with_file_offset(FileOffset::new(f.try_clone().unwrap(), if backing == 1 { 0 } else { 0x3000 }));
+                        }
+                        b.build()
+                    };
+                    let rp = || json!({"prot": prot, "flags": flags, "size": size, "backing": backing});
+                    let describe = || ("C12/builder-sweep".to_string(), format!("prot {:#x} flags {:#x} size {:#x} backing {}", prot, flags, size, backing), rp());
+                    let judge = |res: Option<(Option<(usize, Vec<(usize, usize)>)>, Vec<MapEvent>)>, fault: &str| {
+                        let Some((alive, log)) = res else { return None };
+                        let left = net_mapped(&log);
+                        if let Some((ptr, during)) = &alive {
+                            let pg = |x: usize| (x + 4095) / 4096 * 4096;
+                            if !during.iter().any(|(s, e)| *s <= *ptr && pg(ptr + size) <= *e) {
+                                ctx.fail("C12/builder-sweep/region-not-mapped-while-alive", &format!("prot {:#x} flags {:#x} size {:#x} backing {}{}: the region at {:#x} is not inside what the library left mapped {:x?}", prot, flags, size, backing, fault, ptr, during), rp());
+                            } else if during.iter().map(|(s, e)| e - s).sum::<usize>() != pg(size) {
+                                ctx.fail("C12/builder-sweep/more-than-the-region-mapped", &format!("prot {:#x} flags {:#x} size {:#x} backing {}{}: {:x?} mapped for a region of {:#x} bytes", prot, flags, size, backing, fault, during, size), rp());
+                            }
+                        }
+                        if !left.is_empty() {
+                            ctx.fail("C12/builder-sweep/address-space-leaked", &format!("prot {:#x} flags {:#x} size {:#x} backing {}{}: the build {} and {:x?} is still mapped with no owner", prot, flags, size, backing, fault, if alive.is_some() { "succeeded, the region was dropped" } else { "was refused" }, left), rp());
+                        }
+                        Some(alive.is_some())
+                    };
+                    runs += 1;
+                    ctx.case(true);
+                    take_aux_calls();
+                    take_log();
+                    let r = crate::crash::guarded(ctx, &describe, || {
+                        record_maps(|| match make() {
+                            Ok(reg) => {
+                                let during = net_mapped(&crate::interpose::peek_log());
+                                let ptr = reg.as_ptr() as usize;
+                                drop(reg);
+                                Some((ptr, during))
+                            }
+                            Err(_) => None,
+                        })
+                    });
+                    let naux = take_aux_calls();
+                    match judge(r, "") {
+                        Some(true) => built += 1,
+                        Some(false) => refused += 1,
+                        None => {}
+                    }
+                    for k in 0..naux {
+                        aux_runs += 1;
+                        ctx.case(true);
+                        take_log();
+                        let r = crate::crash::guarded(ctx, &describe, || {
+                            record_maps(|| {
+                                fail_aux_in(k as i64);
+                                let res = make();
+                                fail_aux_in(-1);
+                                match res {
+                                    Ok(reg) => {
+                                        let during = net_mapped(&crate::interpose::peek_log());
+                                        let ptr = reg.as_ptr() as usize;
+                                        drop(reg);
+                                        Some((ptr, during))
+                                    }
+                                    Err(_) => None,
+                                }
+                            })
+                        });
+                        take_aux_calls();
+                        judge(r, &format!(", auxiliary call #{} failing", k));
+                    }
+                }
+            }
+        }
+    }
+    ctx.add_transitions(runs + aux_runs);
+    ctx.add_traces(runs + aux_runs);
+    ctx.extra("builder_sweep", json!({"builds": runs, "built": built, "refused": refused, "auxiliary_call_fault_runs": aux_runs}));
+}
+
 pub fn run(tier: Tier, replay: Option<String>) -> i32 {
     let ctx = crate::new_ctx("C12", tier, "model_checking", &replay);
-    ctx.set_rule("E1: BFS over all histories up to the depth bound of {create region (owned anonymous / owned file-backed - through from_range, the builder with the hugetlbfs hint, or with the hint set afterwards, rotating with the slot - / external raw / external raw file-backed; Xen build: UNIX, grant in advance, foreign on the emulated devices), build a map from any subset of region handles, insert, remove (yields a removed-region handle), clone map, wrap in GuestMemoryAtomic, snapshot, replace the published map, clone handle, drop ANY live handle (every other drop happens while a caught panic unwinds)}; state = owner graph (which handle keeps which region alive), each frontier state is rebuilt by replaying its history on the real objects with mmap/munmap (and the grant ioctls) recorded through link-time interposition. After every step: a region with an owner has not been passed to munmap and is readable; a region whose last owner went away was munmap'ed exactly once with exactly its mapped length (grant: plus exactly one matching unmap ioctl); external mappings are never unmapped; at the end of every history all remaining handles are dropped and the same invariant is checked. Address-space accounting: the whole mapping log is replayed after every step; every page the library mapped while creating a region is attributed to it, all pages of a region with an owner must still be mapped, and none of the pages attributed to a region without owners may remain. Size sweep: the life cycle {create, build, clone, atomic, snapshot, optional remove} followed by the drop orders of the five owners for owned regions of 1 byte .. 32 MiB+1 (thorough: .. 1 GiB+1; page multiples and not, around the 2 MiB huge-page size), same invariants. Replace histories: create two regions, build, remove, wrap, snapshot, replace the published map by the one without the second region, then drop its four other owners in all 24 orders while the replaceable memory stays alive. Failed creations (std build): anonymous and file-backed regions and a two-region map created through four routes with exactly one mmap call failing, or one query of the file length failing or reporting an empty file: nothing the library mapped on the way may remain.");
+    ctx.set_rule("E1: BFS over all histories up to the depth bound of {create region (owned anonymous / owned file-backed - through from_range, the builder with the hugetlbfs hint, or with the hint set afterwards, rotating with the slot - / external raw / external raw file-backed; Xen build: UNIX, grant in advance, foreign on the emulated devices), build a map from any subset of region handles, insert, remove (yields a removed-region handle), clone map, wrap in GuestMemoryAtomic, snapshot, replace the published map, clone handle, drop ANY live handle (every other drop happens while a caught panic unwinds)}; state = owner graph (which handle keeps which region alive), each frontier state is rebuilt by replaying its history on the real objects with mmap/munmap (and the grant ioctls) recorded through link-time interposition. After every step: a region with an owner has not been passed to munmap and is readable; a region whose last owner went away was munmap'ed exactly once with exactly its mapped length (grant: plus exactly one matching unmap ioctl); external mappings are never unmapped; at the end of every history all remaining handles are dropped and the same invariant is checked. Address-space accounting: the whole mapping log is replayed after every step; every page the library mapped while creating a region is attributed to it, all pages of a region with an owner must still be mapped, and none of the pages attributed to a region without owners may remain. Size sweep: the life cycle {create, build, clone, atomic, snapshot, optional remove} followed by the drop orders of the five owners for owned regions of 1 byte .. 32 MiB+1 (thorough: .. 1 GiB+1; page multiples and not, around the 2 MiB huge-page size), same invariants. Replace histories: create two regions, build, remove, wrap, snapshot, replace the published map by the one without the second region, then drop its four other owners in all 24 orders while the replaceable memory stays alive. Failed creations (std build): anonymous and file-backed regions and a two-region map created through four routes with exactly one mmap call failing, or one query of the file length failing or reporting an empty file: nothing the library mapped on the way may remain. Builder sweep (std build): MmapRegionBuilder::build for 5 protections x 16 (thorough 25) flag words (private/shared, anonymous or not, NORESERVE, LOCKED, POPULATE, FIXED, HUGETLB, STACK, GROWSDOWN, ...) x 4 (6) sizes x {no file, file at offset 0, file at a page offset}: while a built region is alive exactly its pages are mapped, after its drop or after a refused build nothing remains; every mlock/madvise/mprotect call the library makes on the way (interposed too) is failed once.");
     ctx.assume("the 'programs' half of the property (accessors cannot outlive their parent) is decided by the compile-fail grid in tools/cfail.py and rests on Rust's borrow checker");
     if ctx.replay_of.is_some() {
         println!("replay: deterministic search; re-running it");
@@ -997,6 +1121,8 @@ pub fn run(tier: Tier, replay: Option<String>) -> i32 {
     replace_histories(&ctx, &kinds);
     #[cfg(not(feature = "xen"))]
     failed_creations(&ctx);
+    #[cfg(not(feature = "xen"))]
+    builder_sweep(&ctx, thorough);
     ctx.set_exhaustive(true);
     ctx.finish()
 }
